@@ -109,6 +109,9 @@ struct Tally {
     transitions: u64,
     nontrivial: u64,
     extra: u64,
+    /// jobs not run because the leg's wall-clock cap was reached
+    skipped: u64,
+    skipped_inputs: u64,
 }
 
 impl Tally {
@@ -118,14 +121,21 @@ impl Tally {
         self.transitions += o.transitions;
         self.nontrivial += o.nontrivial;
         self.extra += o.extra;
+        self.skipped += o.skipped;
+        self.skipped_inputs += o.skipped_inputs;
     }
 }
 
 /// Oracles (1), (2), (4) on every value of the jobs.
-fn run_value_jobs(sp: &Space, tabs: &BTreeMap<usize, Vec<gen::Shape>>, jobs: &[Job], acc: &Acc, leg: &str) -> Tally {
+fn run_value_jobs(sp: &Space, tabs: &BTreeMap<usize, Vec<gen::Shape>>, jobs: &[Job], acc: &Acc, leg: &str, cap_s: f64) -> Tally {
+    let started = Instant::now();
     let res = par_map(jobs, ncpu(), |_, job| {
         let c0 = calls();
         let mut t = Tally::default();
+        if started.elapsed().as_secs_f64() > cap_s {
+            t.skipped = 1;
+            return t;
+        }
         for_each_value(sp, tabs, job, |v| {
             watch::enter("value", "");
             t.states += 1;
@@ -179,11 +189,17 @@ fn collect_texts(sp: &Space, tabs: &BTreeMap<usize, Vec<gen::Shape>>, jobs: &[Jo
 
 /// Oracles (3), (4) on every text; for texts the one-shot parser accepts, oracle (1) on the value
 /// it produced (it is parser-produced by construction).
-fn run_text_jobs(texts: &[String], acc: &Acc, leg: &str, max_cuts: usize, check_parsed: bool) -> Tally {
+fn run_text_jobs(texts: &[String], acc: &Acc, leg: &str, max_cuts: usize, check_parsed: bool, cap_s: f64) -> Tally {
+    let started = Instant::now();
     let idx: Vec<usize> = (0..texts.len()).step_by(64).collect();
     let res = par_map(&idx, ncpu(), |_, &a| {
         let c0 = calls();
         let mut t = Tally::default();
+        if started.elapsed().as_secs_f64() > cap_s {
+            t.skipped = 1;
+            t.skipped_inputs = ((a + 64).min(texts.len()) - a) as u64;
+            return t;
+        }
         for text in &texts[a..(a + 64).min(texts.len())] {
             watch::enter("text", text);
             t.states += 1;
@@ -289,214 +305,256 @@ fn replay(ctx: Ctx) -> ! {
     ctx.finish("model_checking", "replay")
 }
 
+struct Cfg {
+    one_cut_limit: usize,
+    big_bytes: usize,
+}
+
+fn sample_texts(v: &Value) -> String {
+    format!("{} -> {:?}", ref_print(v), (0..3).map(|i| print(i, v).unwrap_or_default()).collect::<Vec<_>>())
+}
+
+fn tabs_for(max: usize) -> BTreeMap<usize, Vec<gen::Shape>> {
+    let mut tabs = BTreeMap::new();
+    for s in 2..=max {
+        tabs.insert(s, shapes(s));
+    }
+    tabs
+}
+
+/// Oracles (1), (2), (4) on all values of `sizes` of a space.
+fn model_leg(ctx: &Ctx, acc: &Acc, name: &str, pool: &str, sp: &Space, sizes: std::ops::RangeInclusive<usize>, cap_s: f64) {
+    let t0 = Instant::now();
+    let tabs = tabs_for(*sizes.end());
+    let jobs = jobs_for(sp, sizes.clone(), 2048);
+    let t = run_value_jobs(sp, &tabs, &jobs, acc, name, cap_s);
+    let mid = &sp.vals[3];
+    ctx.add_leg(Leg {
+        name: name.into(),
+        engine: "E4-enum".into(),
+        states: t.states,
+        transitions: t.transitions,
+        evaluations: t.evaluations,
+        distinct_nontrivial: t.nontrivial,
+        rule: "every model value of the stated tree sizes x 3 printers (+ the re-print of every differing parse image, + reductions of failing values); non-trivial = records with at least one attribute or item and texts that are not bare identifiers".into(),
+        samples: vec![json!(sample_texts(&sp.vals[2][7])), json!(sample_texts(&mid[mid.len() / 5])), json!(sample_texts(&mid[mid.len() - 3]))],
+        exhaustive: t.skipped == 0,
+        bounds: json!({"tree_sizes": format!("{}..={}", sizes.start(), sizes.end()), "atom_pool": pool, "atoms": sp.vals[1].len() - 1,
+            "attr_names": gen::NAMES, "attrs_max": 2, "items_max": 2,
+            "values_per_size": sizes.clone().map(|s| sp.count(s)).collect::<Vec<_>>(), "parser_producible_values": t.extra,
+            "wall_cap_s": cap_s, "jobs": jobs.len(), "jobs_skipped_by_cap": t.skipped,
+            "completed": if t.skipped == 0 { "all".to_string() } else { format!("{} of {} jobs of 2048 values (job order: size, shape, index)", jobs.len() as u64 - t.skipped, jobs.len()) }}),
+        wall_s: t0.elapsed().as_secs_f64(),
+    });
+}
+
+fn texts_of(sp: &Space, sizes: std::ops::RangeInclusive<usize>, max_chars: Option<usize>) -> BTreeSet<String> {
+    let tabs = tabs_for(*sizes.end());
+    let jobs = jobs_for(sp, sizes, 2048);
+    collect_texts(sp, &tabs, &jobs, max_chars)
+}
+
+fn text_leg(ctx: &Ctx, acc: &Acc, name: &str, texts: &[String], check_parsed: bool, rule: &str, mut bounds: serde_json::Value, cap_s: f64) {
+    let t0 = Instant::now();
+    let t = run_text_jobs(texts, acc, name, 2, check_parsed, cap_s);
+    bounds["distinct_texts"] = json!(texts.len());
+    bounds["two_cut_limit_bytes"] = json!(48);
+    bounds["accepted_by_oneshot"] = json!(t.extra);
+    bounds["wall_cap_s"] = json!(cap_s);
+    bounds["texts_skipped_by_cap"] = json!(t.skipped_inputs);
+    let n = texts.len();
+    ctx.add_leg(Leg {
+        name: name.into(),
+        engine: "E4-enum".into(),
+        states: t.states,
+        transitions: t.transitions,
+        evaluations: t.evaluations,
+        distinct_nontrivial: t.nontrivial,
+        rule: rule.into(),
+        samples: if n >= 8 { vec![json!(texts[n / 3]), json!(texts[n / 2]), json!(texts[n - 7])] } else { texts.iter().map(|t| json!(t)).collect() },
+        exhaustive: t.skipped == 0,
+        bounds,
+        wall_s: t0.elapsed().as_secs_f64(),
+    });
+}
+
+fn deep_leg(ctx: &Ctx, acc: &Acc, cfg: &Cfg) {
+    let t0 = Instant::now();
+    let one_cut_limit = cfg.one_cut_limit;
+    let mut inputs: Vec<(String, Value)> = vec![];
+    for d in 1..=64 {
+        for f in 0..3 {
+            inputs.push((format!("{} depth {}", gen::LINEAR_NAMES[f], d), gen::linear(f, d)));
+        }
+    }
+    inputs.extend(gen::big_values(cfg.big_bytes));
+    // heaviest first for load balance
+    inputs.reverse();
+    let res = par_map(&inputs, ncpu(), |_, (name, v)| {
+        let c0 = calls();
+        let mut t = Tally::default();
+        watch::enter("deep_value", name);
+        t.states += 1;
+        t.nontrivial += 1;
+        let laws = value_laws(v, false);
+        t.evaluations += laws.evaluations;
+        if laws.producible {
+            t.extra += 1;
+        }
+        if !laws.failed.is_empty() {
+            let (vs, e) = value_violations(v, false, &laws, "deep_and_long");
+            t.evaluations += e;
+            acc.add_all(vs);
+        }
+        let mut texts = BTreeSet::new();
+        for i in 0..3 {
+            if let Ok(s) = print(i, v) {
+                texts.insert(s);
+            }
+        }
+        for text in texts {
+            let tt = Instant::now();
+            watch::enter("deep_text", &format!("{} ({} bytes)", name, text.len()));
+            let (vs, st, _) = text_violations_lim::<Value>(&text, &strict_eq, SENTINEL, 2, "deep_and_long", "Value", one_cut_limit);
+            if text.len() > one_cut_limit {
+                t.skipped_inputs += 1;
+            }
+            if std::env::var("C09_DEBUG").is_ok() && tt.elapsed().as_secs_f64() > 1.0 {
+                eprintln!("  slow: {} {} bytes evals {} {:.1}s", name, text.len(), st.evaluations, tt.elapsed().as_secs_f64());
+            }
+            t.evaluations += st.evaluations;
+            t.nontrivial += st.nontrivial;
+            acc.add_all(vs);
+        }
+        watch::leave();
+        t.transitions = calls() - c0;
+        t
+    });
+    let mut t = Tally::default();
+    for r in &res {
+        t.merge(r);
+    }
+    ctx.add_leg(Leg {
+        name: "deep_and_long".into(),
+        engine: "E4-enum".into(),
+        states: t.states,
+        transitions: t.transitions,
+        evaluations: t.evaluations,
+        distinct_nontrivial: t.nontrivial,
+        rule: "three linear record families at every depth 1..64 and one long text per boundary character / three long blobs: value laws + no cut, every 1-cut (within the stated window for texts longer than one_cut_limit), every 2-cut when len <= 48 and byte-by-byte, on their three renderings; all inputs non-trivial".into(),
+        samples: vec![json!(sample_texts(&gen::linear(0, 3))), json!(sample_texts(&gen::linear(1, 3))), json!(sample_texts(&gen::linear(2, 3)))],
+        exhaustive: true,
+        bounds: json!({"depths": "1..=64", "families": gen::LINEAR_NAMES, "long_atom_bytes": cfg.big_bytes, "inputs": inputs.len(), "parser_producible": t.extra,
+            "one_cut_limit_bytes": one_cut_limit, "texts_longer_than_one_cut_limit": t.skipped_inputs,
+            "coverage_of_longer_texts": "no cut, byte-by-byte, and every 1-cut within one_cut_limit/2 bytes of either end"}),
+        wall_s: t0.elapsed().as_secs_f64(),
+    });
+}
+
+fn typed_leg(ctx: &Ctx, acc: &Acc) {
+    let t0 = Instant::now();
+    let c0 = calls();
+    let mut out = vec![];
+    let mut st = typed::TypedStats { states: 0, evaluations: 0, nontrivial: 0, samples: vec![] };
+    let mut runner = typed::Runner { out: &mut out, stats: &mut st, max_cuts: 2, only: None };
+    typed::run_all(&mut runner);
+    acc.add_all(out);
+    ctx.add_leg(Leg {
+        name: "typed".into(),
+        engine: "E4-enum".into(),
+        states: st.states,
+        transitions: calls() - c0,
+        evaluations: st.evaluations,
+        distinct_nontrivial: st.nontrivial,
+        rule: "battery of built-in and derived types: parse::<T>(print_i(t)) == t for the three printers, and both decoders with T's recognizer under all chunkings of the three renderings; non-trivial = instances whose rendering contains a quote, attribute or record, plus chunkings cutting inside a token".into(),
+        samples: st.samples.clone(),
+        exhaustive: true,
+        bounds: json!({"instances": st.states, "two_cut_limit_bytes": 48}),
+        wall_s: t0.elapsed().as_secs_f64(),
+    });
+}
+
+const CHUNK_RULE: &str = "every distinct text printed (3 printers) for the stated values x {RecognizerDecoder, WithLenRecognizerDecoder} x {no cut, every 1-cut, every 2-cut when len <= 48, byte-by-byte}, each followed by a sentinel text through the same decoder instance; non-trivial = chunkings with a cut strictly inside a token, a UTF-8 sequence or the length prefix";
+const MUT_RULE: &str = "every single-character deletion / duplication of every printed text of <= 24 chars of the stated values, minus the printed texts themselves: no panic, no hang, chunked == one-shot, and round trip of the parsed value when the one-shot parser accepts the text; non-trivial as in chunking_printed";
+
 fn main() {
     std::panic::set_hook(Box::new(|_| {}));
     let ctx = Ctx::from_env("C09");
-    watch::start(ctx.root.clone(), ctx.id.clone(), 120);
+    watch::start(ctx.root.clone(), ctx.id.clone(), 180);
     if ctx.replay_request().is_some() {
         replay(ctx);
     }
     let quick = ctx.quick();
     let acc = Acc { found: Mutex::new(BTreeMap::new()) };
     let env_usize = |k: &str, d: usize| std::env::var(k).ok().and_then(|s| s.parse().ok()).unwrap_or(d);
+    let cfg = Cfg {
+        one_cut_limit: env_usize("C09_ONE_CUT_LIMIT", ctx.tier.pick(4200, 8400)),
+        big_bytes: env_usize("C09_BIG", ctx.tier.pick(1024, 4096)),
+    };
+    let cap = env_usize("C09_CAP_S", ctx.tier.pick(100_000, 300)) as f64;
 
-    // ------------------------------------------------------------------ spaces
-    let max_size = env_usize("C09_SIZE", ctx.tier.pick(4, 4));
-    let chunk_size = env_usize("C09_CHUNK_SIZE", ctx.tier.pick(3, 3));
-    let mut_size = env_usize("C09_MUT_SIZE", ctx.tier.pick(2, 3));
-    let big_bytes = env_usize("C09_BIG", ctx.tier.pick(4096, 4096));
-    let one_cut_limit = env_usize("C09_ONE_CUT_LIMIT", ctx.tier.pick(4200, 40000));
     let t0 = Instant::now();
-    let memo = (max_size.max(chunk_size).max(mut_size) - 1).max(3);
-    let sp = Space::new(gen::atoms_full(), memo);
-    let mut tabs: BTreeMap<usize, Vec<gen::Shape>> = BTreeMap::new();
-    for s in 2..=max_size.max(5) {
-        tabs.insert(s, shapes(s));
-    }
-    eprintln!("[C09] space built in {:.1}s: counts {:?}", t0.elapsed().as_secs_f64(), (1..=max_size).map(|s| sp.count(s)).collect::<Vec<_>>());
+    let full = Space::new(gen::atoms_full(), 3);
+    let reduced = Space::new(gen::atoms_reduced(), if quick { 3 } else { 4 });
+    eprintln!(
+        "[C09] spaces built in {:.1}s: full pool counts {:?}; reduced pool counts {:?}",
+        t0.elapsed().as_secs_f64(),
+        (1..=4).map(|s| full.count(s)).collect::<Vec<_>>(),
+        (1..=(if quick { 4 } else { 5 })).map(|s| reduced.count(s)).collect::<Vec<_>>()
+    );
 
-    // ------------------------------------------------------------------ leg 1: model values
-    {
-        let t0 = Instant::now();
-        let jobs = jobs_for(&sp, 1..=max_size, 2048);
-        let t = run_value_jobs(&sp, &tabs, &jobs, &acc, "model_values");
-        ctx.add_leg(Leg {
-            name: "model_values".into(),
-            engine: "E4-enum".into(),
-            states: t.states,
-            transitions: t.transitions,
-            evaluations: t.evaluations,
-            distinct_nontrivial: t.nontrivial,
-            rule: "every model value of tree size <= bound x 3 printers (+ the re-print of every differing parse image); non-trivial = records with at least one attribute or item and texts that are not bare identifiers".into(),
-            samples: vec![
-                json!(format!("{} -> {:?}", ref_print(&sp.vals[2][7]), (0..3).map(|i| print(i, &sp.vals[2][7]).unwrap_or_default()).collect::<Vec<_>>())),
-                json!(format!("{} -> {:?}", ref_print(&sp.vals[3][5000]), (0..3).map(|i| print(i, &sp.vals[3][5000]).unwrap_or_default()).collect::<Vec<_>>())),
-                json!(format!("{} -> {:?}", ref_print(&sp.vals[3][20001]), (0..3).map(|i| print(i, &sp.vals[3][20001]).unwrap_or_default()).collect::<Vec<_>>())),
-            ],
-            exhaustive: true,
-            bounds: json!({"tree_size_max": max_size, "atoms": gen::atoms_full().len(), "attr_names": gen::NAMES, "attrs_max": 2, "items_max": 2,
-                "values_per_size": (1..=max_size).map(|s| sp.count(s)).collect::<Vec<_>>(), "parser_producible_values": t.extra}),
-            wall_s: t0.elapsed().as_secs_f64(),
-        });
+    // leg 1: model values, full pool, tree size <= 4
+    model_leg(&ctx, &acc, "model_values", "full", &full, 1..=4, cap);
+    if !quick {
+        // leg 1b: the shapes that only exist at size 5, over one atom per lexical class
+        model_leg(&ctx, &acc, "model_values_size5", "reduced (one atom per lexical class)", &reduced, 5..=5, cap);
     }
 
-    // ------------------------------------------------------------------ leg 2: chunking of printed texts
-    let printed: Vec<String>;
-    {
-        let t0 = Instant::now();
-        let jobs = jobs_for(&sp, 1..=chunk_size, 2048);
-        let set = collect_texts(&sp, &tabs, &jobs, None);
-        printed = set.into_iter().collect();
-        let t = run_text_jobs(&printed, &acc, "chunking_printed", 2, false);
-        ctx.add_leg(Leg {
-            name: "chunking_printed".into(),
-            engine: "E4-enum".into(),
-            states: t.states,
-            transitions: t.transitions,
-            evaluations: t.evaluations,
-            distinct_nontrivial: t.nontrivial,
-            rule: "every distinct text printed (3 printers) for values of tree size <= bound x {RecognizerDecoder, WithLenRecognizerDecoder} x {no cut, every 1-cut, every 2-cut when len <= 48, byte-by-byte}; non-trivial = chunkings with a cut strictly inside a token, a UTF-8 sequence or the length prefix".into(),
-            samples: vec![json!(printed[printed.len() / 3]), json!(printed[printed.len() / 2]), json!(printed[printed.len() - 7])],
-            exhaustive: true,
-            bounds: json!({"tree_size_max": chunk_size, "distinct_texts": printed.len(), "two_cut_limit_bytes": 48, "texts_accepted_by_oneshot": t.extra}),
-            wall_s: t0.elapsed().as_secs_f64(),
-        });
+    // leg 2: chunking of printed texts
+    let printed: Vec<String> = texts_of(&full, 1..=3, None).into_iter().collect();
+    text_leg(&ctx, &acc, "chunking_printed", &printed, false, CHUNK_RULE, json!({"values": "full pool, tree size <= 3"}), cap);
+    let printed_set: BTreeSet<&String> = printed.iter().collect();
+    let mut seen_more: BTreeSet<String> = BTreeSet::new();
+    if !quick {
+        let more: Vec<String> = texts_of(&reduced, 4..=4, None).into_iter().filter(|t| !printed_set.contains(t)).collect();
+        text_leg(&ctx, &acc, "chunking_printed_size4", &more, false, CHUNK_RULE, json!({"values": "reduced pool (one atom per lexical class), tree size 4"}), cap);
+        seen_more.extend(more);
     }
 
-    // ------------------------------------------------------------------ leg 3: mutated texts
+    // leg 3: mutated texts
     {
-        let t0 = Instant::now();
-        let jobs = jobs_for(&sp, 1..=mut_size, 2048);
-        let base = collect_texts(&sp, &tabs, &jobs, Some(24));
+        let base = texts_of(&full, 1..=(if quick { 2 } else { 3 }), Some(24));
         let base_v: Vec<&String> = base.iter().collect();
         let parts = par_map(&base_v, ncpu(), |_, t| mutations(t));
         let mut set: BTreeSet<String> = BTreeSet::new();
         for p in parts {
             set.extend(p);
         }
-        let printed_set: BTreeSet<&String> = printed.iter().collect();
-        let texts: Vec<String> = set.into_iter().filter(|t| !printed_set.contains(t)).collect();
-        let t = run_text_jobs(&texts, &acc, "mutated_texts", 2, true);
-        ctx.add_leg(Leg {
-            name: "mutated_texts".into(),
-            engine: "E4-enum".into(),
-            states: t.states,
-            transitions: t.transitions,
-            evaluations: t.evaluations,
-            distinct_nontrivial: t.nontrivial,
-            rule: "every single-character deletion / duplication of every printed text of <= 24 chars (values of tree size <= bound), minus the printed texts themselves: no panic, no hang, chunked == one-shot, and round trip of the value when the one-shot parser accepts; non-trivial as in chunking_printed".into(),
-            samples: vec![json!(texts[texts.len() / 3]), json!(texts[texts.len() / 2]), json!(texts[texts.len() - 5])],
-            exhaustive: true,
-            bounds: json!({"tree_size_max": mut_size, "base_texts": base.len(), "distinct_mutated_texts": texts.len(), "accepted_by_oneshot": t.extra,
-                "rejected_by_oneshot": t.states - t.extra}),
-            wall_s: t0.elapsed().as_secs_f64(),
-        });
+        let texts: Vec<String> = set.into_iter().filter(|t| !printed_set.contains(t) && !seen_more.contains(t)).collect();
+        text_leg(
+            &ctx,
+            &acc,
+            "mutated_texts",
+            &texts,
+            true,
+            MUT_RULE,
+            json!({"values": format!("full pool, tree size <= {}", if quick { 2 } else { 3 }), "base_texts_of_at_most_24_chars": base.len()}),
+            cap,
+        );
     }
 
-    // ------------------------------------------------------------------ leg 4: linear families and long atoms
-    {
-        let t0 = Instant::now();
-        let mut inputs: Vec<(String, Value)> = vec![];
-        for d in 1..=64 {
-            for f in 0..3 {
-                inputs.push((format!("{} depth {}", gen::LINEAR_NAMES[f], d), gen::linear(f, d)));
-            }
-        }
-        inputs.extend(gen::big_values(big_bytes));
-        // heaviest first for load balance
-        inputs.reverse();
-        let res = par_map(&inputs, ncpu(), |_, (name, v)| {
-            let c0 = calls();
-            let mut t = Tally::default();
-            watch::enter("deep_value", name);
-            t.states += 1;
-            t.nontrivial += 1;
-            let laws = value_laws(v, false);
-            t.evaluations += laws.evaluations;
-            if laws.producible {
-                t.extra += 1;
-            }
-            if !laws.failed.is_empty() {
-                let (vs, e) = value_violations(v, false, &laws, "deep_and_long");
-                t.evaluations += e;
-                acc.add_all(vs);
-            }
-            let mut texts = BTreeSet::new();
-            for i in 0..3 {
-                if let Ok(s) = print(i, v) {
-                    texts.insert(s);
-                }
-            }
-            for text in texts {
-                let tt = Instant::now();
-                watch::enter("deep_text", &format!("{} ({} bytes)", name, text.len()));
-                let (vs, st, _) = text_violations_lim::<Value>(&text, &strict_eq, SENTINEL, 2, "deep_and_long", "Value", one_cut_limit);
-                if text.len() > one_cut_limit {
-                    t.extra += 1 << 32;
-                }
-                if std::env::var("C09_DEBUG").is_ok() && tt.elapsed().as_secs_f64() > 1.0 {
-                    eprintln!("  slow: {} {} bytes evals {} {:.1}s", name, text.len(), st.evaluations, tt.elapsed().as_secs_f64());
-                }
-                t.evaluations += st.evaluations;
-                t.nontrivial += st.nontrivial;
-                acc.add_all(vs);
-            }
-            watch::leave();
-            t.transitions = calls() - c0;
-            t
-        });
-        let mut t = Tally::default();
-        for r in &res {
-            t.merge(r);
-        }
-        ctx.add_leg(Leg {
-            name: "deep_and_long".into(),
-            engine: "E4-enum".into(),
-            states: t.states,
-            transitions: t.transitions,
-            evaluations: t.evaluations,
-            distinct_nontrivial: t.nontrivial,
-            rule: "three linear record families at every depth 1..64 and one long text per boundary character / three long blobs: value laws + every 1-cut and the byte-by-byte chunking (2-cuts when len <= 48) of their three renderings; all inputs non-trivial".into(),
-            samples: vec![json!(ref_print(&gen::linear(0, 3))), json!(ref_print(&gen::linear(1, 3))), json!(ref_print(&gen::linear(2, 3)))],
-            exhaustive: true,
-            bounds: json!({"depths": "1..=64", "families": gen::LINEAR_NAMES, "long_atom_bytes": big_bytes, "inputs": inputs.len(), "parser_producible": t.extra & 0xffff_ffff,
-                "one_cut_limit_bytes": one_cut_limit, "texts_longer_than_one_cut_limit": t.extra >> 32,
-                "coverage_of_longer_texts": "no cut, byte-by-byte, and every 1-cut within one_cut_limit/2 bytes of either end"}),
-            wall_s: t0.elapsed().as_secs_f64(),
-        });
-    }
+    // leg 4: deep and long inputs; leg 5: typed values
+    deep_leg(&ctx, &acc, &cfg);
+    typed_leg(&ctx, &acc);
 
-    // ------------------------------------------------------------------ leg 5: typed values
-    {
-        let t0 = Instant::now();
-        let c0 = calls();
-        let mut out = vec![];
-        let mut st = typed::TypedStats { states: 0, evaluations: 0, nontrivial: 0, samples: vec![] };
-        let mut runner = typed::Runner { out: &mut out, stats: &mut st, max_cuts: 2, only: None };
-        typed::run_all(&mut runner);
-        acc.add_all(out);
-        ctx.add_leg(Leg {
-            name: "typed".into(),
-            engine: "E4-enum".into(),
-            states: st.states,
-            transitions: calls() - c0,
-            evaluations: st.evaluations,
-            distinct_nontrivial: st.nontrivial,
-            rule: "battery of built-in and derived types: parse::<T>(print_i(t)) == t for the three printers, and both decoders with T's recognizer under all chunkings of the three renderings; non-trivial = instances whose rendering contains a quote, attribute or record, plus chunkings cutting inside a token".into(),
-            samples: st.samples.clone(),
-            exhaustive: true,
-            bounds: json!({"instances": st.states}),
-            wall_s: t0.elapsed().as_secs_f64(),
-        });
-    }
-
-    let _ = quick;
     for (sig, v) in acc.found.into_inner().unwrap() {
         ctx.violation(v.detail["leg"].as_str().unwrap_or("c09"), &sig, v.detail.clone());
     }
     ctx.assume("atom pool of boundary values; other magnitudes / strings are not enumerated");
     ctx.assume("one-shot parser = parse_recognize(.., allow_comments = false), the mode the decoders use");
     ctx.assume("error results are compared by class (error vs value), not by message or offset");
+    ctx.assume("floats are finite: values containing NaN/infinity (which the parser yields for e.g. 1e999) are only subject to the no-panic law, as the property states");
+    ctx.assume("a model value counts as parser-producible when the one-shot parser returns exactly it on the harness's own fully quoted rendering, or when it was obtained from the parser");
     ctx.finish(
         "model_checking",
         "bounded-exhaustive enumeration of model values, typed values, printed and mutated texts and of all chunkings, against the real printers, parser and decoders",
